@@ -422,6 +422,25 @@ func (fr *Frame) callByContract(callee *ssa.Function, sp *FuncSpec, args []*Val,
 			o.Label = ti.Clause.Label
 		}
 	}
+	// recursion: termination measure and stack bound (DESIGN §2.4)
+	if sp.Decr != nil {
+		top := fr
+		for top.parent != nil {
+			top = top.parent
+		}
+		cm := mk(fr.st, nil, nil).evalInt(sp.Decr.Expr)
+		if top.spec != nil && top.spec.Decr != nil && ex.P.sameCycle(top.fn, callee) {
+			tcx := top.baseCtx(top.entrySt)
+			for _, p := range top.fn.Params {
+				tcx.vals[p.Name()] = top.vals[p]
+				tcx.types[p.Name()] = p.Type()
+			}
+			tm := tcx.evalInt(top.spec.Decr.Expr)
+			fr.oblige("term", site+":"+shortFn(callee)+":measure decreases", and(ex.ar.cmp("<=", idxT, ex.idx(0), cm), ex.ar.cmp("<", idxT, cm, tm)), pos)
+		} else if sp.StackBound > 0 {
+			fr.oblige("stack", site+":"+shortFn(callee)+":recursion depth bounded by "+fmt.Sprint(sp.StackBound), ex.ar.cmp("<=", idxT, cm, ex.idx(int64(sp.StackBound))), pos)
+		}
+	}
 	mods := map[string]bool{}
 	ex.callMods(&ssa.CallCommon{Value: callee, Args: argv}, func(s string) { mods[s] = true })
 	if len(mods) > 0 {
@@ -680,4 +699,45 @@ func (fr *Frame) appendOp(c *ssa.CallCommon, pos token.Pos) *Val {
 		ex.havocFamilies(fr.st, fams)
 	}
 	return res
+}
+
+// sameCycle: f and g call each other (directly or through other analysed functions).
+func (P *Prog) sameCycle(f, g *ssa.Function) bool {
+	return P.reaches(f, g) && P.reaches(g, f)
+}
+
+func (P *Prog) reaches(f, g *ssa.Function) bool {
+	key := [2]*ssa.Function{f, g}
+	if r, ok := P.reachCache[key]; ok {
+		return r
+	}
+	seen := map[*ssa.Function]bool{}
+	work := []*ssa.Function{f}
+	found := false
+	for len(work) > 0 && !found {
+		x := work[len(work)-1]
+		work = work[:len(work)-1]
+		if seen[x] {
+			continue
+		}
+		seen[x] = true
+		for _, b := range x.Blocks {
+			for _, in := range b.Instrs {
+				if c, ok := in.(ssa.CallInstruction); ok {
+					if callee := c.Common().StaticCallee(); callee != nil {
+						if callee == g {
+							found = true
+						}
+						if P.isAnalysed(callee) && !seen[callee] {
+							work = append(work, callee)
+						}
+					}
+				}
+			}
+		}
+	}
+	P.reachMu.Lock()
+	P.reachCache[key] = found
+	P.reachMu.Unlock()
+	return found
 }
